@@ -153,7 +153,10 @@ pub fn corpus() -> Vec<(String, String)> {
 /// Confirmed front-end crashes whose fixes have all landed (DESIGN §7 fix rows): (id, probe text).  Every
 /// check runs them first, in a child process, as hard regression inputs: a crash is a failing input of the
 /// property, reported with the probe's source.  Nothing is gated.
-pub const GATES: [(&str, &str); 19] = [
+pub const GATES: [(&str, &str); 22] = [
+    ("D110", "interface Foo {\n  fn a(self: Self) -> int\n  fn b(self: Self) -> int\n}\nimplement Foo for array<Bogus> {\n  fn a(self) -> int { 1 }\n}\n"),
+    ("D111", "fn foo(a: int, b: int) -> int { a + b }\nlet x = foo(1, 2"),
+    ("D112", "let f = (c: C) -> 1\nprintln(f(2))\n"),
     ("D86", "type Vec = { x: int, y: int }\nimplement Num for Vec {\n    fn add(a, b) = Vec(a.x + b.x, a.y + b.y)\n    fn subtract(a, b) = Vec(a.x - b.x, a.y - b.y)\n    fn multiply(a, b) = Vec(a.x * b.x, a.y * b.y)\n    fn divide(a, b) = Vec(a.x / b.x, a.y / b.y)\n    fn power(a, b) = Vec(a.x ^ b.x, a.y ^ b.y)\n}\n\nlet v = Vec(10, 20)\nlet w = -v\nprintln(w.x)\n"),
     ("D84", "fn f(b: int = { for i in [1] { }; 2 }) -> int { b }\n"),
     ("D79", "type G = { v: array<int> }\nimplement Index for G {\n  fn index_get(self, index: int) -> int { self.v[index] }\n  fn index_set(self, index: int, val: int) -> void { self.v[index] = val }\n}\nlet g = G([1, 2, 3])\ng[1] += 2\nprintln(g[1])\n"),
@@ -858,6 +861,16 @@ pub fn impl_header_texts() -> Vec<(String, String)> {
     }
     v
 }
+
+
+/// Verdict probes: texts that must be REJECTED with a diagnostic containing the given words (the "diagnostics"
+/// side of C04's "a compiled program or a list of diagnostics" is demanded, not just the absence of a crash).
+pub const VERDICTS: [(&str, &str, &str); 4] = [
+    ("D110", "interface Foo {\n  fn a(self: Self) -> int\n  fn b(self: Self) -> int\n}\nimplement Foo for array<Bogus> {\n  fn a(self) -> int { 1 }\n}\n", "Bogus"),
+    ("D111", "fn foo(a: int, b: int) -> int { a + b }\nlet x = foo(1, 2", "expecting"),
+    ("D111b", "fn foo(a: int, b: int) -> int { a + b }\nlet x = [foo(1, 2), 3", "expecting"),
+    ("D94-like", "let x: int = \"s\"\n", "int"),
+];
 
 /// crude token boundaries, independent of the real lexer: runs of word characters, single other characters
 pub fn crude_tokens(s: &str) -> Vec<(usize, usize)> {
